@@ -14,7 +14,7 @@ CONFIG = dict(
           "in the lowest byte (64-bit pairs), ID pair whose order is decided by Lamport or where epoch and Lamport "
           "order disagree (event IDs); distinct by value hash."),
     assumptions=["bytes.Compare is the byte-wise order meant by the property"],
-    level_more='Units TestC32Sort (0-5000 IDs through ByEpochAndLamport: ordered and a permutation) and TestC32Concurrent (2-8 goroutines encoding at the same time).',
+    level_more='Units TestC32Sort (0-5000 IDs through ByEpochAndLamport: ordered and a permutation) and TestC32Concurrent (2-8 goroutines encoding at the same time). Kept bytes are decoded twice and must stay unchanged; decoders given longer slices read the leading bytes.',
     units=[
         dict(test="TestC32Enum16", kind="plain"),
         dict(test="TestC32Enum32", kind="plain", shards=16),
